@@ -308,7 +308,7 @@ def explore_library(P: Program, tier: str, max_len: Optional[int] = None, jobs: 
     import os
     universe = UNIVERSE_THOROUGH if tier == "thorough" else UNIVERSE_QUICK
     max_len = max_len or (3 if tier == "thorough" else 2)
-    depth = 4 if tier == "thorough" else 3
+    depth = 3
     runner = LibRun(P, universe)
     seen = {(): []}
     frontier = [()]
